@@ -5,7 +5,7 @@
    [separated v N Us] holds for every history of a repaired tree and, on the unchanged tree, for the
    histories in which no dApp name is a prefix of another name ++ user address and none is empty;
    [op_in] bounds the creation bond by the maximum on a tree that does not check it. *)
-From Sekai Require Import Base.Prelude Base.Dec Model.Layer2 Model.C20Check Proofs.Layer2 Proofs.Layer2Lp Proofs.Layer2Chk.
+From Sekai Require Import Base.Prelude Base.Dec Model.Layer2 Model.C20Check Proofs.Layer2 Proofs.Layer2Lp Proofs.Layer2All Proofs.Layer2Chk.
 From Coq Require Import QArith.
 Open Scope Z_scope.
 
@@ -14,7 +14,7 @@ Open Scope Z_scope.
    [wf_op]: senders are not the module account, the LP denomination is not ukex, and the creation bond of a
    holder of the bond-free creation permission is neither negative nor in a foreign denomination (the two
    inputs outside the modelled domain).  No restriction on names, amounts, order, users or block times. *)
-Theorem C20_current_tree_is_fixed : fixed (mkVariant false false false false false true) /\ fixed repaired.
+Theorem C20_current_tree_is_fixed : fixed (mkVariant false false false false false true true) /\ fixed repaired.
 Proof. exact (conj current_fixed repaired_fixed). Qed.
 Print Assumptions C20_current_tree_is_fixed.
 
@@ -53,7 +53,7 @@ Print Assumptions C20_failed_bootstrap_refunds_all.
 
 Theorem C20_pool_bond_held_by_module :
   forall v c, fixed v -> forall ops l, 0 <= bal MOD UKEX l -> Forall wf_op ops ->
-  sum_totals (dapps (run v c ops (empty_state l))) <= bal MOD UKEX (led (run v c ops (empty_state l))).
+  sum_totals (dapps (run v c ops (empty_state l))) + bal MOD UKEX l = bal MOD UKEX (led (run v c ops (empty_state l))).
 Proof. exact bond_held_fixed. Qed.
 Print Assumptions C20_pool_bond_held_by_module.
 
@@ -65,12 +65,46 @@ Theorem C20_chk_sound_state :
 Proof. exact state_clauses_sound_fixed. Qed.
 Print Assumptions C20_chk_sound_state.
 Theorem C20_chk_sound_user_step :
-  forall v c N Us users dens, separated v N Us -> users_ok Us -> NoDup users -> users_ok users ->
-  forall st o u n g, Inv c N Us st -> op_in v c N Us o -> op_actor o = Some (u, n) -> In u users ->
+  forall v c N Us k users dens, separated v N Us -> users_ok Us -> NoDup users -> users_ok users ->
+  forall st o u n g, Inv c N Us k st -> op_in v c N Us o -> op_actor o = Some (u, n) -> In u users ->
   g_prev g = snap users dens true st ->
   user_clauses users g (snap users dens (is_ok (step v c st o)) (apply v c st o)) u n = [].
 Proof. exact user_clauses_sound. Qed.
 Print Assumptions C20_chk_sound_user_step.
+
+(* BOND CONSERVATION over ARBITRARY operation lists -- all messages, blocks, configuration changes, the other layer2
+   messages that move coins through the module account, passed upsert proposals, keeper-level swap / redeem /
+   convert and forced status changes, in any order: the module's ukex is exactly the recorded bonds of all dApps
+   (plus what it held before), and every bootstrapping dApp's total is the sum of its user bonds, at most the maximum.
+   [valid] asks of each operation, in the state it is applied to: [op_in] for messages; for the keeper-level LP calls a
+   launched dApp, a pool fee between 0 and 1 and a non-negative LP supply (a fact of the bank); the repaired upsert
+   handler and conversion. *)
+Theorem C20_bond_conservation :
+  forall v c N Us ops l, separated v N Us -> users_ok Us -> valid v c N Us (empty_state l) ops ->
+  bal MOD UKEX (led (run v c ops (empty_state l))) = sum_totals (dapps (run v c ops (empty_state l))) + bal MOD UKEX l
+  /\ (forall n d, find_dapp n (dapps (run v c ops (empty_state l))) = Some d -> d_status d = 0 ->
+      d_total d = sum_bonds n (bonds (run v c ops (empty_state l))) /\ d_total d <= max_thr c).
+Proof. exact bond_conservation. Qed.
+Print Assumptions C20_bond_conservation.
+Example C20_bond_conservation_nonvacuous :
+  valid repaired acfg ["x"%string] [aU0; aU1] (empty_state al0) a_ops
+  /\ (let st := run repaired acfg a_ops (empty_state al0) in bal MOD UKEX (led st) = sum_totals (dapps st) /\ map d_status (dapps st) = [1]).
+Proof. exact (conj a_valid a_result). Qed.
+
+(* the fee taken by the keeper functions lies between 0 and the amount (pool fee between 0 and 1): a redemption never
+   pays out more than the pool bond falls *)
+Theorem C20_fee_within_amount :
+  forall x fee f, fee_of x fee = Ok f -> 0 <= fee <= PREC -> (0 <= x -> 0 <= f <= x) /\ (x <= 0 -> x <= f <= 0).
+Proof. exact fee_of_range. Qed.
+Print Assumptions C20_fee_within_amount.
+
+(* the checker's pool-native clause holds around every operation of the model inside its guard *)
+Theorem C20_chk_sound_pool_native :
+  forall v c N Us k users dens ok ok' st o, separated v N Us -> users_ok Us -> Inv c N Us k st -> op_ok v c N Us st o ->
+  cl "pool-native" (zsum (map snd (o_dapps (snap users dens ok' (apply v c st o)))) - zsum (map snd (o_dapps (snap users dens ok st)))
+                    =? o_mod (snap users dens ok' (apply v c st o)) - o_mod (snap users dens ok st)) = [].
+Proof. exact pool_native_sound. Qed.
+Print Assumptions C20_chk_sound_pool_native.
 
 (* ================================================================ any variant of the tree (guards exclude exactly the
    inputs on which the unrepaired defects bite); the [_refuted] theorems are about the unrepaired variant bits *)
@@ -79,7 +113,7 @@ Print Assumptions C20_chk_sound_user_step.
    and the money that left (entered) the user's account is exactly that amount *)
 Theorem C20_user_bond_is_deposits_minus_reclaims_any_variant :
   forall v c N Us, separated v N Us -> users_ok Us ->
-  forall ops st, Inv c N Us st -> Forall (op_in v c N Us) ops -> forallb is_user_op ops = true ->
+  forall k ops st, Inv c N Us k st -> Forall (op_in v c N Us) ops -> forallb is_user_op ops = true ->
   (forall n u, bond_amt n u (bonds (run v c ops st)) = bond_amt n u (bonds st) + net_flow v c ops st n u)
   /\ (forall u, u <> MOD -> bal u UKEX (led (run v c ops st)) = bal u UKEX (led st) - net_out v c ops st u).
 Proof. exact deposits_minus_reclaims. Qed.
@@ -134,7 +168,7 @@ Print Assumptions C20_failed_bootstrap_refunds_all_refuted.
 Theorem C20_pool_bond_held_by_module_any_variant :
   forall v c N Us, separated v N Us -> users_ok Us ->
   forall ops l, 0 <= bal MOD UKEX l -> Forall (op_in v c N Us) ops ->
-  sum_totals (dapps (run v c ops (empty_state l))) <= bal MOD UKEX (led (run v c ops (empty_state l))).
+  sum_totals (dapps (run v c ops (empty_state l))) + bal MOD UKEX l = bal MOD UKEX (led (run v c ops (empty_state l))).
 Proof. exact bond_held. Qed.
 Print Assumptions C20_pool_bond_held_by_module_any_variant.
 (* unchanged tree, dApp "ab" fails while "abc" is bootstrapping: the bonders of "abc" are paid out of the
